@@ -9,7 +9,7 @@ def absOf (a d : Nat) (sa sd : Bool) : JoypadSpec.Abs where
   bit4 := !sd
   bit5 := !sa
 
-def checkJoy (l : Line) : Verdict :=
+def checkC17 (l : Line) : Verdict :=
   let a := l.inN "a"; let d := l.inN "d"
   let sa := l.inN "sa" == 1; let sd := l.inN "sd" == 1
   let arg := l.inN "arg"
